@@ -685,6 +685,22 @@ func (x *Exec) block(st *State, b *ssa.BasicBlock, pred *ssa.BasicBlock, k Cont)
 				g := x.H.MatchIter(x, st, ls, st.Events[mark:])
 				x.obl(st, ls.Name+"/iteration", g, "events of one iteration", b.Instrs[0].Pos())
 			}
+			// atend(x): the value of loop variable x at the end of the iteration (what flows into the header's phi along
+			// this back edge); a bare x and atiter(x) are its value when the iteration started
+			for _, hi := range b.Instrs {
+				phi, ok := hi.(*ssa.Phi)
+				if !ok {
+					break
+				}
+				if phi.Comment == "" || phi.Comment == "rangeindex" {
+					continue
+				}
+				for ei, p := range b.Preds {
+					if p == pred && ei < len(phi.Edges) {
+						st.NamedV["atend:"+phi.Comment] = x.val(st, phi.Edges[ei])
+					}
+				}
+			}
 			if len(ls.IterEnsures) > 0 && x.H.IterEnsures != nil {
 				for i, g := range x.H.IterEnsures(x, st, ls, st.Events[mark:]) {
 					x.obl(st, fmt.Sprintf("%s/iteration-ensures#%d", ls.Name, i), g, ls.IterEnsures[i], b.Instrs[0].Pos())
